@@ -24,7 +24,8 @@ RULE = (
 )
 ASSUMPTIONS = [
     "CPython 3.12 builtins/functools/heapq are the reference",
-    "floats and Fractions are dyadic so all sums are exact, except the 'inexact' profile of sum (known finding sum-float-compensation); no NaN, no partial orders",
+    "floats and Fractions are dyadic so all sums are exact, except the 'inexact' profile of sum (known finding sum-float-compensation); no NaN; orders may be weak (ties that are not ==: profiles ltonly / ltpure) but not partial",
+    "nlargest / nsmallest of a sized argument with n >= len and ties that are not == are excluded after being reported (known finding heap-selection-sized-shortcut)",
     "sum(start=str/bytes) and dict(mapping) are outside the quantifier and not generated",
 ]
 
